@@ -1184,6 +1184,16 @@ class Interp:
                 if all(self.truth(self.eval(c, sub), e, sub) for c in g.ifs):
                     out.append(self.eval(e.elt, sub))
             return out
+        if isinstance(it, Op) and it.op == "range" and isinstance(e, ast.ListComp) and not g.ifs:
+            # a list comprehension over a range of unknown length is the loop `out = []; for t in range(..): out.append(elt)`: run it through
+            # the loop machinery, so that state carried from one element to the next (a forward hook storing the previous output) is carried
+            sub["__comp_out__"] = []
+            loop = ast.For(target=g.target, iter=g.iter, orelse=[], body=[ast.Expr(value=ast.Call(
+                func=ast.Attribute(value=ast.Name(id="__comp_out__", ctx=ast.Load()), attr="append", ctx=ast.Load()), args=[e.elt], keywords=[]))])
+            ast.copy_location(loop, e)
+            ast.fix_missing_locations(loop)
+            self.exec_stmt(loop, sub)
+            return sub["__comp_out__"]
         if isinstance(it, SymList):
             elem = it.elem
         elif isinstance(it, MapList):
